@@ -46,12 +46,16 @@ def gen_case(rng):
     nested = rng.random() < 0.5
     tpls = {n: _gen_template(rng) for n in names}
     rows = [{n: _fill(rng, tpls[n]) for n in names} for _ in range(rng.choice([2, 3, 4]))]
-    return {'kind': 'qviews', 'names': names, 'nested': nested, 'rows': rows,
-            'query': rng.sample(names, rng.randrange(1, len(names) + 1))}
+    shared = rng.random() < 0.25
+    return {'kind': 'qviews', 'names': names, 'nested': nested or shared, 'rows': rows,
+            'query': rng.sample(names, rng.randrange(1, len(names) + 1)), 'shared': shared}
 
 
 def corpus():
     return [
+        # two `shared_ram` emitters (one table for all instances): what either emitted is in the history both return
+        {'kind': 'qviews', 'names': ['a', 'b'], 'nested': True, 'query': ['a'], 'shared': True,
+         'rows': [{'a': ['Q', 1, 'fg'], 'b': 0}, {'a': ['Q', 2, 'fg'], 'b': False}]},
         {'kind': 'qviews', 'names': ['a'], 'nested': False, 'query': ['a'],
          'rows': [{'a': ['L', [2, ['Q', 1.5, 'fg'], ['L', [['Q', 2, 'um'], ['Q', 1, 'um']]]]]},
                   {'a': ['L', [0, ['Q', 2.5, 'fg'], ['L', [['Q', 3, 'um'], ['Q', 1, 'um']]]]]}]},
@@ -98,16 +102,32 @@ def _want(v):
 def run_impl(case):
     import warnings
     warnings.simplefilter('ignore')
-    from vivarium.core.emitter import RAMEmitter
+    import copy
+    from vivarium.core.emitter import RAMEmitter, SharedRamEmitter
     obs = {}
     try:
-        em = RAMEmitter({})
+        other = None
+        if case.get('shared'):
+            SharedRamEmitter.saved_data.clear()
+            em = SharedRamEmitter({})
+            other = SharedRamEmitter({'embed_path': ('elsewhere',)})
+        else:
+            em = RAMEmitter({})
         for t, row in enumerate(case['rows']):
             data = {n: _dec(v) for n, v in row.items()}
             if case['nested']:
                 data = {'cell': data}
             data['time'] = float(t)
             em.emit({'table': 'history', 'data': data})
+            if other is not None:
+                other.emit({'table': 'history', 'data': {'time': float(t), 'marker': t}})
+        if other is not None:
+            # the second instance returns the one shared history: the first one's variables and its own
+            both = other.get_data()
+            obs['shared_ok'] = all(('elsewhere' in r and r['elsewhere'].get('marker') == int(t)
+                                    and any(k != 'elsewhere' for k in r)) for t, r in both.items()) \
+                and len(both) == len(case['rows'])
+        raw_before = repr(sorted(copy.deepcopy(em.get_data()).items()))
         pre = ('cell',) if case['nested'] else ()
 
         def sub(d):
@@ -115,7 +135,8 @@ def run_impl(case):
                 d = d[k]
             return d
         des = em.get_data_deserialized()
-        obs['deserialized'] = [[t, {n: _enc(v) for n, v in sub(r).items()}] for t, r in sorted(des.items())]
+        obs['deserialized'] = [[t, {n: _enc(v) for n, v in sub(r).items() if n != 'elsewhere'}]
+                               for t, r in sorted(des.items())]
         def col_key(k):
             # a column of scalar quantities is keyed (name, units) and holds the magnitudes
             return f'{k[0]} [{k[1]}]' if isinstance(k, tuple) else k
@@ -125,7 +146,7 @@ def run_impl(case):
         pts = em.get_path_timeseries()
         obs['path_timeseries'] = {'time': list(pts['time']),
                                   'vars': {col_key(p[-1]): [_enc(v) for v in col]
-                                           for p, col in pts.items() if p != 'time'}}
+                                           for p, col in pts.items() if p != 'time' and p[0] != 'elsewhere'}}
         q = [pre + (n,) for n in case['query']]
         qd = em.get_data_deserialized(q)
         obs['query'] = [[t, {n: _enc(v) for n, v in sub(r).items()}] for t, r in sorted(qd.items())]
@@ -133,8 +154,16 @@ def run_impl(case):
         obs['query_timeseries'] = {'time': list(qts['time']),
                                    'vars': {col_key(n): [_enc(v) for v in col]
                                             for n, col in sub(qts).items() if n != 'time'}}
+        # reading the views leaves the saved history as it was emitted
+        obs['raw_stable'] = repr(sorted(em.get_data().items())) == raw_before
     except Exception as e:  # noqa
         obs['raised'] = f'{type(e).__name__}: {str(e)[:200]}'
+    finally:
+        if case.get('shared'):
+            try:
+                SharedRamEmitter.saved_data.clear()
+            except Exception:  # noqa
+                pass
     return obs
 
 
@@ -160,6 +189,11 @@ def oracle(case, impl):
             want_cols[n] = col
     qn = case['query']
     fails = []
+    if impl.get('shared_ok') is False:
+        fails.append('shared-history: a second `shared_ram` emitter does not return what the first one emitted (the '
+                     'instances share one table)')
+    if impl.get('raw_stable') is False:
+        fails.append('raw-data-changed: get_data() differs after the deserialized / timeseries views were read')
     if impl['deserialized'] != want_rows:
         fails.append(f'deserialized: get_data_deserialized() = {str(impl["deserialized"])[:300]}, emitted '
                      f'{str(want_rows)[:300]}')
